@@ -48,6 +48,7 @@ theorem applyAct_inv (s : State) (fh fw : List Nat) (a : Act) (h : s.Inv) (hR : 
   | counts r => exact applyAct_inv_counts s fh fw r h
   | wcounts w => exact applyAct_inv_wcounts s fh fw w h
   | setPanic q => exact applyAct_inv_setPanic s fh fw q h
+  | setShallow q => exact applyAct_inv_setShallow s fh fw q h
   | upgradeField k => exact applyAct_inv_upgradeField s fh fw k h
   | cloneField k => exact applyAct_inv_cloneField s fh fw k h
 
